@@ -38,9 +38,9 @@ VARIABLES i,      \* line being judged
 SvcAll == DOMAIN SvcMeta
 Has(o, f) == f \in DOMAIN o
 
-SpecOf(j) == [type |-> j.type, fam |-> j.fam, pol |-> j.pol, v6first |-> j.v6first, cips |-> j.cips,
-              share |-> j.share, ports |-> Range(j.ports), etp |-> j.etp, sel |-> j.sel,
-              reqIPs |-> j.reqIPs, reqPool |-> j.reqPool]
+(* the spec record as the scenario carried it (it was printed from Listener!CtlSpecs, so it has every
+   field Controller.tla reads); only the port list becomes a set again *)
+SpecOf(j) == [j EXCEPT !.ports = Range(j.ports)]
 MemOf(m) == [t \in SvcAll |->
                IF t \in DOMAIN m
                THEN [pool |-> m[t].pool, ips |-> m[t].ips, ports |-> Range(m[t].ports), sk |-> m[t].sk, bk |-> m[t].bk]
